@@ -33,7 +33,6 @@ def main():
     if a.replay is not None:
         fn = h.make(params, 0, 1)
         args = json.loads(a.replay)
-        symx.KNOWN_SIGNATURES = set()
         try:
             fn(**args)
         except symx.Violation as v:
